@@ -21,7 +21,7 @@ def _replay(rep, r):
 def run(tier, seed):
     return run_property(
         "C12", tier, seed, level="other",
-        deductive=[("c01_step", r"C12\."), ("c02_elem", r"^C12\.frame|^C02\.alias"), ("c05_ops", r"grad_unwritten|result_is_a_copy"), ("c14_seed", r"C12\.")],
+        deductive=[("c01_step", r"C12\.|no_other_exception"), ("c02_elem", r"^C12\.frame|^C02\.alias"), ("c05_ops", r"grad_unwritten|result_is_a_copy"), ("c14_seed", r"C12\.")],
         bounded=[("graph_bounded.py", ["--check", "C12"]), ("c12_bounded.py", [])],
         replay=_replay,
         trusted=["pyvc/graphdom.py + pyvc/realdom.py NumPy axioms (which calls write which array)", "C02.alias classes for ops outside PyVC's subset are observed, not proved"],
